@@ -186,6 +186,12 @@ Fixpoint alg_expand (e : Op) (B : shape) : result Op :=
   | _ => Err ENotModelled
   end.
 
+(* Constructor invariants ([wfb], Op.v) are established by the library's constructors.  The model RE-CHECKS them where an
+   object that it built itself is passed on (arguments of the Sum-family / Matmul constructors, operands of every program
+   step) and answers Err EInvalid if one fails.  On objects the library can build the checks always pass: Check.v compares
+   "model returns / library returns" on every generated case, so a failing re-check shows up as a disagreement.  The
+   theorems may therefore use the invariants of intermediate objects without a separate closure proof. *)
+
 (* `lt._expand_batch(shape) if lt.batch_shape != shape else lt` *)
 Definition expand_to (e : Op) (B : shape) : result Op :=
   if shape_eqb (batch e) B then Ok e else alg_expand e B.
@@ -199,13 +205,15 @@ Fixpoint bcast_all (l : list Op) : result shape :=
 
 (* SumLinearOperator.__init__ and its subclasses: broadcast the batch shapes, expand every argument, class checks *)
 Definition mk_sumc (k : sumk) (ops : list Op) : result Op :=
+  if negb (forallb wfb ops) then Err EInvalid else      (* invariant re-check of the arguments, see [guard] *)
   B <- bcast_all ops ;;
   ops' <- mapM (fun x => expand_to x B) ops ;;
   sumc_checks k ops'.
 
 (* MatmulLinearOperator(l, r) after the shape check of LinearOperator.matmul *)
 Definition mk_matmul (l r : Op) : result Op :=
-  if negb (Nat.eqb (cols l) (rows r)) then Err EShape
+  if negb (wfb l && wfb r) then Err EInvalid           (* invariant re-check of the arguments, see [guard] *)
+  else if negb (Nat.eqb (cols l) (rows r)) then Err EShape
   else if negb (bcompat (batch l) (batch r)) then Err EShape
   else
     let B := bcast (batch l) (batch r) in
